@@ -511,10 +511,33 @@ pub fn run_c11(cx: &Ctx) -> i32 {
                 for (l, lre) in &limited {
                     for tpl in ["x", "$0"] {
                         t.evaluations += 1;
+                        // the searches replace_all makes are those of find_iter (template without $)
+                        // or captures_iter (with $): it must fail iff one of them fails, and
+                        // otherwise give the unlimited result
+                        let searches_fail = if tpl.contains('$') {
+                            let log = engine::captures_iter_log(lre, text);
+                            log.panic.is_some() || log.items.iter().any(|i| i.is_err())
+                        } else {
+                            let log = engine::find_iter_log(lre, text);
+                            log.panic.is_some() || log.items.iter().any(|i| i.is_err())
+                        };
                         match engine::replacen_str(lre, text, 0, tpl) {
                             Err(e) if e.starts_with("Panic") => viol(&mut t, text, format!("backtrack limit {}: try_replacen(0, {:?}) panics: {}", l, tpl, e)),
-                            Err(_) => t.count("error_results", 1),
-                            Ok(_) => {}
+                            Err(_) => {
+                                t.count("error_results", 1);
+                                if !searches_fail {
+                                    viol(&mut t, text, format!("backtrack limit {}: try_replacen(0, {:?}) is an Err although none of its searches fails", l, tpl));
+                                }
+                            }
+                            Ok(got) => {
+                                if searches_fail {
+                                    viol(&mut t, text, format!("backtrack limit {}: try_replacen(0, {:?}) returns Ok({:?}) although a search of the iteration fails with the limit error: the error is swallowed", l, tpl, got.0));
+                                } else if let Ok(full) = engine::replacen_str(&re, text, 0, tpl) {
+                                    if full != got {
+                                        viol(&mut t, text, format!("backtrack limit {}: try_replacen(0, {:?}) = {:?} but without a limit {:?}", l, tpl, got, full));
+                                    }
+                                }
+                            }
                         }
                     }
                 }
